@@ -81,7 +81,7 @@ class C06(Prop):
             rows.append(row)
         return {"null_key": nk, "null_spelling": g.choice(NULLS[nk]), "rows": rows, "textcol": textcol,
                 "wrap": g.random() < 0.2 and nc >= 3, "policy_null": g.choice(["strict", "strict", "none"]),
-                "engine": g.choice(["numpy", "normal"]), "vers": g.choice([1.2, 2.0]),
+                "engine": g.choice(["numpy", "normal"]), "vers": g.choice([1.2, 2.0]), "case": g.choice(["upper", "upper", "lower", "preserve"]),
                 "channel": draw_read_channel(g, ascii_only=True), "policy": Policy.draw(st.io).to_json(),
                 "wkw": g.choice([{}, {}, {"version": 1.2}, {"wrap": True}, {"version": 2.0, "wrap": False}, {"fmt": "%.4f"}]),
                 "out": g.choice(["path", "stream", "stringio"])}
@@ -109,7 +109,8 @@ class C06(Prop):
         fs = SimFS(policy=Policy.from_json(sc["policy"]))
         with fs:
             try:
-                las = read_via(fs, text, sc["channel"], {"engine": sc["engine"], "null_policy": sc["policy_null"]}, tag="c06")
+                las = read_via(fs, text, sc["channel"], {"engine": sc["engine"], "null_policy": sc["policy_null"],
+                                                        "mnemonic_case": sc.get("case", "upper")}, tag="c06")
             except Exception as e:
                 res.violate("C06.unreadable", "document could not be read: %s: %s" % (type(e).__name__, str(e).strip().splitlines()[-1][:200] if str(e).strip() else ""))
                 return res
@@ -200,8 +201,8 @@ class C06(Prop):
             d["rows"] = [r[:-1] for r in d["rows"]]
             if not (d["wrap"] and nc - 1 < 3):
                 yield d
-        for k, v in (("wrap", False), ("wkw", {}), ("out", "stringio"), ("engine", "normal"), ("vers", 2.0)):
-            if sc[k] != v:
+        for k, v in (("wrap", False), ("wkw", {}), ("out", "stringio"), ("engine", "normal"), ("vers", 2.0), ("case", "upper")):
+            if sc.get(k, v) != v:
                 d = copy.deepcopy(sc)
                 d[k] = v
                 yield d
